@@ -137,7 +137,7 @@ func histories(r *core.Run) bool {
 				n := frontier[j.node]
 				var w *world
 				for ti := j.lo; ti < j.hi; ti++ {
-					if r.Expired() {
+					if expired(r) {
 						return
 					}
 					t := al[ti]
@@ -169,7 +169,7 @@ func histories(r *core.Run) bool {
 			}
 		})
 		nTrans += trans
-		if !ok {
+		if !ok || cur.cut.Load() {
 			complete = false
 			break
 		}
